@@ -99,6 +99,8 @@ def id_admissible(idc, antecedent_full, max_pages):
     m = re.match(r"(?:at )?(\d+)", pin)
     if not m:
         return False
+    if len(m.group(1)) > 18 or len(str(page)) > 18:
+        return False   # digit runs no page number can have ("implausibly far" whatever the window)
     p, first = int(m.group(1)), int(page)
     if p < first or p > first + max_pages or p >= first + HARD_PAGE_LIMIT:
         return False
